@@ -239,7 +239,13 @@ func (c *Ctx) Violation(key, what string, replay interface{}) {
 			return
 		}
 	}
-	if len(c.violations) >= 20 {
+	maxV := 20
+	if s := os.Getenv("VERIF_MAXVIOL"); s != "" {
+		if n, err := strconv.Atoi(s); err == nil {
+			maxV = n
+		}
+	}
+	if len(c.violations) >= maxV {
 		c.counters["violations_not_recorded"]++
 		return
 	}
@@ -344,7 +350,7 @@ func (c *Ctx) finish(runErr error) int {
 	return 0
 }
 
-// Build compiles ./cmd/<target> of the harness module against /repo's current working tree.
+// Build compiles ./wcmd/<target> of the harness module against /repo's current working tree.
 // flavour: "" | "race" | "asan" | "checkptr".  The binary is placed in the run's scratch dir.
 func (c *Ctx) Build(target, flavour string) (string, error) {
 	out := filepath.Join(c.Scratch, target+"-"+flavour)
@@ -357,7 +363,7 @@ func (c *Ctx) Build(target, flavour string) (string, error) {
 	case "checkptr":
 		args = append(args, "-gcflags=all=-d=checkptr")
 	}
-	args = append(args, "-o", out, "./cmd/"+target)
+	args = append(args, "-o", out, "./wcmd/"+target)
 	cmd := exec.Command("go", args...)
 	cmd.Dir = HarnessDir
 	cmd.Env = GoEnv()
